@@ -210,6 +210,7 @@ def streams(ctx):
     SESS = [("jsr", "file:///w/deno.json", '{\n  "imports": {\n    "@std/path": "jsr:@std/path@^1.0.0"\n  }\n}', "jsr", "@std/path", ["1.0.0", "1.0.5", "1.2.0", "2.0.0"], 2),
             ("npm", "file:///w/package.json", '{\n  "dependencies": {\n    "alias": "npm:real-pkg@^1.0.0",\n    "lodash": "~1.0.0"\n  }\n}', "npm", "real-pkg", ["1.0.0", "1.0.5", "1.2.0"], 2),
             ("gha", "file:///w/.github/workflows/ci.yml", 'jobs:\n  b:\n    steps:\n      - uses: "actions/checkout@v1.0.0"\n', "github_actions", "actions/checkout", ["v1.0.0", "v1.0.5", "v2.0.0"], 3),
+            ("npm", "file:///w/package.json", '{"name": "é日本", "dependencies": {"é": "1.0.0", "alias": "npm:real-pkg@^1.0.0", "ü": "2"}}', "npm", "real-pkg", ["1.0.0", "1.0.5", "1.2.0"], 0),
             ("crates", "file:///w/Cargo.toml", '[dependencies]\nserde = { version = "1.0.0", features = ["derive"] }\n', "crates_io", "serde", ["1.0.0", "1.0.5", "1.1.0"], 1)]
     scases, sgroups = [], []
     for eco, uri, text, reg, name, vs, li in SESS:
